@@ -1,6 +1,7 @@
 package main
 
 import (
+	"fmt"
 	"go/constant"
 	"go/token"
 	"go/types"
@@ -656,4 +657,112 @@ func vecElemAt(eff *Effects, vec ssa.Value, k int64, at ssa.Instruction) (vals [
 	}
 	scan(at.Block(), instrIndex(at)-1)
 	return
+}
+
+// ---------- reachability that tracks boolean phis ----------
+
+// reachableBoolSensitive: blocks reachable from start without entering a block for which stop() is true,
+// pruning branches on a boolean phi (or a load of a simple bool cell) whose value is a known constant along the
+// path taken (the `found := false; if …{found = true}; if !found {…}` idiom).
+func reachableBoolSensitive(start *ssa.BasicBlock, stop func(b *ssa.BasicBlock) bool) map[*ssa.BasicBlock]bool {
+	type state struct {
+		b   *ssa.BasicBlock
+		env string
+	}
+	out := map[*ssa.BasicBlock]bool{}
+	seen := map[state]bool{}
+	var visit func(b *ssa.BasicBlock, from *ssa.BasicBlock, env map[ssa.Value]bool)
+	envKey := func(env map[ssa.Value]bool) string {
+		var ks []string
+		for k, v := range env {
+			ks = append(ks, fmt.Sprintf("%s=%v", k.Name(), v))
+		}
+		sort.Strings(ks)
+		return strings.Join(ks, ",")
+	}
+	visit = func(b *ssa.BasicBlock, from *ssa.BasicBlock, env map[ssa.Value]bool) {
+		// phis of b get their value from the edge taken
+		ne := map[ssa.Value]bool{}
+		for k, v := range env {
+			ne[k] = v
+		}
+		if from != nil {
+			idx := -1
+			for i, p := range b.Preds {
+				if p == from {
+					idx = i
+				}
+			}
+			for _, ins := range b.Instrs {
+				phi, ok := ins.(*ssa.Phi)
+				if !ok {
+					break
+				}
+				delete(ne, phi)
+				if idx >= 0 {
+					if c, ok := phi.Edges[idx].(*ssa.Const); ok && c.Value != nil && (c.Value.String() == "true" || c.Value.String() == "false") {
+						ne[phi] = c.Value.String() == "true"
+					} else if v, ok := ne[phi.Edges[idx]]; ok {
+						ne[phi] = v
+					}
+				}
+			}
+		}
+		st := state{b, envKey(ne)}
+		if seen[st] {
+			return
+		}
+		seen[st] = true
+		out[b] = true
+		if len(b.Instrs) == 0 {
+			return
+		}
+		if iff, ok := b.Instrs[len(b.Instrs)-1].(*ssa.If); ok {
+			c, want := normCond(iff.Cond, true)
+			if v, known := ne[c]; known {
+				// only one successor feasible
+				i := 1
+				if v == want {
+					i = 0
+				}
+				if !stop(b.Succs[i]) {
+					visit(b.Succs[i], b, ne)
+				}
+				return
+			}
+		}
+		if iff, ok := b.Instrs[len(b.Instrs)-1].(*ssa.If); ok && len(b.Succs) == 2 {
+			c, want := normCond(iff.Cond, true)
+			for i, s := range b.Succs {
+				if stop(s) {
+					continue
+				}
+				e2 := map[ssa.Value]bool{}
+				for k, v := range ne {
+					e2[k] = v
+				}
+				if isBoolish(c) {
+					e2[c] = (i == 0) == want
+				}
+				visit(s, b, e2)
+			}
+			return
+		}
+		for _, s := range b.Succs {
+			if !stop(s) {
+				visit(s, b, ne)
+			}
+		}
+	}
+	visit(start, nil, map[ssa.Value]bool{})
+	return out
+}
+
+// isBoolish: conditions worth remembering along a path (call results and phis; comparisons are re-evaluated values).
+func isBoolish(v ssa.Value) bool {
+	switch v.(type) {
+	case *ssa.Call, *ssa.Phi, *ssa.Extract, *ssa.Parameter:
+		return true
+	}
+	return false
 }
